@@ -10,7 +10,8 @@ BEHAVIOURS = ["always", "never", "stop2", "late-within", "late-beyond", "wrong-t
               "chatty-silent", "late-long", "never", "always", "slow-register", "slow-register-silent", "cap-renegotiate", "late-once-silent", "cap-open-silent", "cap-open-answering",
               "fragment-silent", "split-answers", "fragment-silent", "surplus-then-silent", "double-then-silent",
               "surplus-then-silent", "busy-at-deadline", "busy-at-deadline", "blank-before-answers",
-              "busy-late-pong", "busy-late-pong", "busy-late-pong"]
+              "busy-late-pong", "busy-late-pong", "busy-late-pong",
+              "stalled-late-pong", "stalled-late-pong", "stalled-late-pong"]
 
 
 class Lag(threading.Thread):
@@ -67,6 +68,11 @@ class Peer:
         self.pending_tails = []
         self.burst_end = None
         self.mark_sent = False
+        self.port = srv.port
+        self.paused = False  # a stalled reader: pump() leaves its socket alone
+        self.stall_rounds = 0
+        self.stall_next = 0.0
+        self.stall_notes = []
 
     def r_capline(self):
         return ["CAP LS 302", "CAP REQ :multi-prefix", "CAP REQ :bogus"][self.idx % 3]
@@ -138,8 +144,54 @@ class Peer:
         elif m.verb.startswith("ERROR"):
             self.error_line = m.raw
 
+    def stall(self, t_ping, tok):
+        """(thread) stop reading, have a helper fill this connection's outgoing path until its handler blocks in the
+        middle of a write, put the due PONG behind it, and start reading again just after the pong timeout has expired:
+        the handler then finds the late answer and the expired timeout waiting for it at the same moment"""
+        helper = None
+        try:
+            helper = wire.Client(self.port, name="f" + self.nick, timeout=8.0)
+            helper.keep_transcript = False
+            helper.register("f" + self.nick, "ck")
+            line = b"PRIVMSG " + self.nick.encode() + b" :" + b"x" * 400 + b"\r\n"
+            helper.sock.settimeout(8.0)
+            helper.sock.sendall(line * 13000)  # > tcp_wmem max + this peer's receive buffer
+            helper.sock.sendall(b"PING :flood-done\r\n")
+            t_end = time.monotonic() + 4.0
+            done = False
+            while not done and time.monotonic() < t_end:
+                for m in helper.read_available(0.05):
+                    if m.verb == "PONG":
+                        done = True
+            time.sleep(0.05)
+            sent_at = time.monotonic() - t_ping
+            self.c.send_raw(b"PONG :" + tok.encode() + b"\r\n")
+            time.sleep(max(0.0, t_ping + self.Q + 0.12 - time.monotonic()))
+            self.stall_notes.append(dict(flood_done=done, pong_sent_after=round(sent_at, 2),
+                                         resumed_after=round(time.monotonic() - t_ping, 2)))
+        except (wire.Closed, wire.Timeout, OSError, RuntimeError) as ex:
+            self.stall_notes.append(dict(error=repr(ex)))
+        finally:
+            try:
+                if helper is not None:
+                    helper.close()
+            except OSError:
+                pass
+            self.first_unanswered = None
+            self.stall_next = time.monotonic() + 0.6
+            self.paused = False
+
     def tick(self, now):
-        if self.closed_at is not None:
+        if self.closed_at is not None or self.paused:
+            return
+        if self.b == "stalled-late-pong" and self.first_unanswered is not None and now >= self.stall_next \
+                and now - self.first_unanswered > 0.3:
+            self.first_unanswered = None  # a PING read late (it was sent during the last stall): wait for a fresh one
+        if self.b == "stalled-late-pong" and self.first_unanswered is not None and self.stall_rounds < 3 \
+                and now >= self.stall_next and now >= self.first_unanswered + 0.03:
+            self.stall_rounds += 1
+            self.paused = True
+            threading.Thread(target=self.stall, args=(self.first_unanswered, self.last_tok), daemon=True).start()
             return
         if not self.registered:
             if self.user_due is not None and now >= self.user_due:
@@ -182,7 +234,7 @@ class Peer:
             self.c.send("PONG :" + a[1])
             self.answered += 1
         if now >= self.next_own_ping and self.b not in ("never", "fragment-silent", "split-answers", "surplus-then-silent",
-                                                         "double-then-silent", "busy-at-deadline", "busy-late-pong"):
+                                                         "double-then-silent", "busy-at-deadline", "busy-late-pong", "stalled-late-pong"):
             self.n += 1
             # "a PONG carrying the same token": ordinary and odd tokens (empty, leading colon, blanks, multi-byte)
             odd = ["", ":", ":-) %d", "a:b%d", "two words %d", "é%d", "::%d", " lead%d", "#%d", "%d:", "trail%d ",
@@ -282,7 +334,9 @@ def run_config(args):
                                             "[%s] %s: %d client PINGs without a PONG carrying the token" % (tag, p.nick, len(stale))))
                 if [e for e in p.events if e[1] == "unexpected-pong"]:
                     out["findings"].append(("clock:pong-wrong-token|" + p.b, "[%s] %s: %s" % (tag, p.nick, p.events[:2])))
-                racy = p.b == "busy-late-pong"
+                racy = p.b in ("busy-late-pong", "stalled-late-pong")
+                if p.b == "stalled-late-pong":
+                    rec["stall_rounds"] = p.stall_notes
                 # R2 live peers stay
                 if responsive and p.closed_at is not None:
                     out["findings"].append(("clock:live-peer-dropped|" + p.b,
@@ -312,7 +366,7 @@ def run_config(args):
                                                 "slack %.1f s)" % (tag, p.nick, p.b, p.closed_at - p.first_unanswered, Q, slack)))
                     # (a peer that is still writing when the server closes may lose the unread ERROR line to the reset its
                     # own late bytes provoke: TCP, not the server)
-                    if p.closed_at is not None and p.b not in ("busy-at-deadline", "busy-late-pong") \
+                    if p.closed_at is not None and p.b not in ("busy-at-deadline", "busy-late-pong", "stalled-late-pong") \
                             and (p.error_line is None or "timeout" not in p.error_line.lower()):
                         out["findings"].append(("clock:no-error-line|" + p.b,
                                                 "[%s] %s closed without an ERROR about the timeout: %r" % (tag, p.nick, p.error_line)))
@@ -342,7 +396,7 @@ def run_config(args):
 
 
 def pump(peers, wait):
-    socks = {p.c.sock: p for p in peers if p.closed_at is None}
+    socks = {p.c.sock: p for p in peers if p.closed_at is None and not p.paused}
     if socks:
         r, _, _ = select.select(list(socks), [], [], wait)
     else:
